@@ -615,7 +615,7 @@ impl ParserListener for Screen {
             column = self.columns - 1;
         }
 
-        self.cursor.x = column;
+        self.cursor.x = column.min(self.columns - 1);
     }
 
     /// Move the cursor to the beginning of the current line.
